@@ -3,6 +3,7 @@ import LoraVerif.Lemmas.ExceptLemmas
 import LoraVerif.Props.C09
 import LoraVerif.Model.History
 import LoraVerif.Lemmas.MacWFStep
+import LoraVerif.Lemmas.Accept
 /-!
 # C04 — no received frame or network command can panic or hang the device
 
@@ -36,8 +37,12 @@ Proved here (for every field value of the commands / every random stream):
 `ValidEv` is the application-side contract only (no payload on port 0, ≤ 222 payload bytes,
 `set_datarate` to an uplink data rate of the region) plus the representation facts of the decoded
 view (a CFList is five frequencies or a 9-byte mask); nothing the network controls is constrained.
-`Fault.hang` (a retry loop exhausting its draw budget) is excluded on purpose: a rejection-sampling
-loop can only be shown to accept at the first acceptable draw (`C09.dynDataLoop_first`).
+`Fault.hang` (a retry loop exhausting its draw budget) cannot be excluded for an arbitrary generator:
+a rejection-sampling loop accepts at the first acceptable draw.  What is proved instead is that the
+accept sets are never empty in any reachable state (`run_accept_nonempty`, `accept_nonempty`): there
+is a draw value on which `send` / `join_otaa` return at once — including the join-channel walk of the
+fixed plans, whose invariant (banks visited cyclically, one free channel taken per visit) is part
+of `MacWF`.
 -/
 open Model Gen.Region
 
@@ -311,6 +316,30 @@ theorem run_wf {σ} (g : Rng σ) (r : RegionId) (maxPower : Nat) (gain : Int) (s
     (hr : run g (MacState.init (RegionState.init r) maxPower gain, s) evs = .ok ((m', s'), outs)) : MacWF m' :=
   ((run_safe g _ s evs (init_wf r maxPower gain hg) (by cases r <;> exact hv)).elim hr).1
 
+/-! ## the hang side: accept sets are never empty -/
+
+/-- **in every state a history reaches, the next `send` and the next `join` can return**: there is
+a draw value on which every retry loop they may enter accepts at once (the accept sets are not
+empty) — for the channel-plan and join-walk state reached by ANY history of valid events from the
+initial state of any region, whatever masks, channels, data rates and join attempts it went through.
+Together with `run_no_panic`: a call can only fail to return by the random generator never offering
+an accepted value. -/
+theorem run_accept_nonempty {σ} (g : Rng σ) (r : RegionId) (maxPower : Nat) (gain : Int) (s s' : σ) (evs : List Ev)
+    (m' : MacState) (outs : List Out) (hg : gainOk r gain = true) (hv : ∀ ev ∈ evs, validEv r ev = true)
+    (hr : run g (MacState.init (RegionState.init r) maxPower gain, s) evs = .ok ((m', s'), outs)) :
+    (∃ v, v < 64 ∧ ∀ {τ : Type} (t : τ), ∃ res, macJoinOtaa (constGen v) m' t = .ok res) ∧
+    (∀ data fport conf, (fport = 0 → data = []) → data.length ≤ 222 →
+      ∃ v, v < 64 ∧ ∀ {τ : Type} (t : τ), ∃ res, macSend (constGen v) m' data fport conf t = .ok res) := by
+  have hwf := run_wf g r maxPower gain s s' evs m' outs hg hv hr
+  exact ⟨macJoinOtaa_returns m' hwf, fun data fport conf h0 hl => macSend_returns m' data fport conf hwf h0 hl⟩
+
+/-- the same for any well-formed state (e.g. with a join bias configured) -/
+theorem accept_nonempty (m : MacState) (h : MacWF m) :
+    (∃ v, v < 64 ∧ ∀ {τ : Type} (t : τ), ∃ res, macJoinOtaa (constGen v) m t = .ok res) ∧
+    (∀ data fport conf, (fport = 0 → data = []) → data.length ≤ 222 →
+      ∃ v, v < 64 ∧ ∀ {τ : Type} (t : τ), ∃ res, macSend (constGen v) m data fport conf t = .ok res) :=
+  ⟨macJoinOtaa_returns m h, fun data fport conf h0 hl => macSend_returns m data fport conf h h0 hl⟩
+
 /-! non-vacuity -/
 example : ∃ r, channelMaskUpdate (RegionState.init .US915) Mask.default 4 0xAB 0xFF = .ok r := channelMaskUpdate_ok _ _ _ _ _ (by decide) |>.imp (fun _ h => h.1)
 example : (channelMaskUpdate (RegionState.init .EU868) Mask.default 4 1 2).toOption = some none := by decide
@@ -350,6 +379,8 @@ end C04
 #print axioms C04.run_no_panic
 #print axioms C04.run_bias_no_panic
 #print axioms C04.run_wf
+#print axioms C04.run_accept_nonempty
+#print axioms C04.accept_nonempty
 #print axioms C04.channelMaskUpdate_ok
 #print axioms C04.isEnabled_ok
 #print axioms C04.drOfNat_ok
